@@ -33,7 +33,11 @@ import (
 
 const tKey = "example.com/team"
 
-func tType(name string, price float64) *cloudprovider.InstanceType {
+func tType(name string, price float64, cpu ...string) *cloudprovider.InstanceType {
+	capCPU := "1000"
+	if len(cpu) > 0 {
+		capCPU = cpu[0]
+	}
 	var ofs cloudprovider.Offerings
 	for k, o := range [][2]string{{"zone-1", v1.CapacityTypeOnDemand}, {"zone-2", v1.CapacityTypeSpot}} {
 		ofs = append(ofs, &cloudprovider.Offering{Available: true, Price: price + float64(k), Requirements: scheduling.NewRequirements(
@@ -49,7 +53,7 @@ func tType(name string, price float64) *cloudprovider.InstanceType {
 			scheduling.NewRequirement(v1.CapacityTypeLabelKey, corev1.NodeSelectorOpIn, v1.CapacityTypeOnDemand, v1.CapacityTypeSpot),
 		),
 		Offerings: ofs,
-		Capacity:  corev1.ResourceList{corev1.ResourceCPU: resource.MustParse("1000"), corev1.ResourcePods: resource.MustParse("110")},
+		Capacity:  corev1.ResourceList{corev1.ResourceCPU: resource.MustParse(capCPU), corev1.ResourcePods: resource.MustParse("110")},
 		Overhead:  &cloudprovider.InstanceTypeOverhead{},
 	}
 }
@@ -117,7 +121,8 @@ func VerifC13_ToNodeClaim() {
 		verifrt.Assume(err == nil && n >= 0)
 		addReq(corev1.NodeSelectorOpGt, raw)
 	}
-	its := []*cloudprovider.InstanceType{tType("it-a", 1), tType("it-b", 3)}
+	// the first type is small: a large pod narrows the NodeClaim's options to the second one, also inside one overhead group
+	its := []*cloudprovider.InstanceType{tType("it-a", 1, "50000"), tType("it-b", 3, "300000")}
 	overhead := []resource.Quantity{verifrt.Quantity("daemon.cpu.group0", 0, 100000), verifrt.Quantity("daemon.cpu.group1", 0, 100000)}
 	groups := []DaemonOverheadGroup{{InstanceTypes: its[:1], DaemonOverhead: corev1.ResourceList{corev1.ResourceCPU: overhead[0]}, HostPortUsage: scheduling.NewHostPortUsage()}}
 	if verifrt.Choice("daemon.groups", 1, 2) == 2 {
